@@ -1,6 +1,13 @@
 package main
 
 import (
+	"time"
+	"sort"
+	"os/exec"
+	"os"
+	"encoding/json"
+	"encoding/hex"
+	"bytes"
 	"fmt"
 	"math/rand"
 	"strconv"
@@ -17,6 +24,8 @@ import (
 // concrete body deterministically from the abstract line (templates below).
 
 func init() {
+	register(&Suite{Name: "bulk_e2e", Parallel: 6, Gen: genBulkE2E, Exec: execBulkE2E,
+		Rule: "the same bulk bodies posted to the real entry point in a fresh engine process, then flush and a match-all search over all indexes: the documents found (by _vid, each once) must be exactly those whose item was acknowledged 201; non-trivial = ≥2 lines"})
 	register(&Suite{Name: "bulk", Gen: genBulk, Exec: execBulk,
 		Rule: "bulk bodies of 0..10 lines from templates (index/create/update/delete/garbage actions, good/bad/oversize/empty documents, action-like docs, missing trailing newline/doc); distinct = sha1(op line); non-trivial = ≥2 lines and at least one non-201 item expected"})
 }
@@ -264,6 +273,176 @@ func execBulk(line string) Result {
 			cls = "stale-oversize-flag-hides-400"
 		}
 		res.Fails = append(res.Fails, PropFail{Sig: "bulk-errors-flag/" + cls, Msg: fmt.Sprintf("errors=%d but %d item(s) failed (items %q)", errFlag, nfail, got)})
+	}
+	return res
+}
+
+
+// ---- end to end: acknowledged == searchable (C15 "created iff that document becomes searchable exactly once")
+
+func genBulkE2E(r *rand.Rand, n int, tier string) []string {
+	var out []string
+	bootEngine()
+	for _, l := range genBulk(r, n, tier) {
+		// only document templates carry a _vid; every other line gets id 0 (it cannot be found by _vid even if stored)
+		var toks []string
+		for _, tok := range strings.Fields(l)[1:] {
+			p := strings.SplitN(tok, "/", 2)
+			ti, _ := strconv.Atoi(p[0])
+			name := bulkTmpls[ti].name
+			if name == "doc" || name == "edgedoc" || name == "bigdoc" || name == "baddoc" {
+				toks = append(toks, tok)
+			} else {
+				toks = append(toks, fmt.Sprintf("%d/%s", ti, abstractLine(bulkTmpls[ti].mk(0), 0)))
+			}
+		}
+		if len(toks) == 1 && strings.HasSuffix(toks[0], ":0:0:0") && strings.HasPrefix(toks[0], fmt.Sprintf("%d/", tmplIdx["empty"])) {
+			continue // empty body
+		}
+		out = append(out, "bulke2e "+strings.Join(toks, " "))
+	}
+	return out
+}
+
+func execBulkE2E(line string) Result {
+	f := strings.Fields(line)
+	if len(f) < 2 || f[0] != "bulke2e" {
+		return Result{Out: "bad-op"}
+	}
+	bootEngine() // the abstraction functions below need the engine's config
+	var lines []string
+	var ids []int
+	for _, tok := range f[1:] {
+		p := strings.SplitN(tok, "/", 2)
+		if len(p) != 2 {
+			return Result{Out: "bad-op"}
+		}
+		ti, err := strconv.Atoi(p[0])
+		q := strings.Split(p[1], ":")
+		if err != nil || ti < 0 || ti >= len(bulkTmpls) || len(q) != 4 {
+			return Result{Out: "bad-op"}
+		}
+		id, _ := strconv.Atoi(q[3])
+		lines = append(lines, bulkTmpls[ti].mk(id))
+		ids = append(ids, id)
+	}
+	body := strings.Join(lines, "\n")
+	var in bytes.Buffer
+	fmt.Fprintf(&in, "bulk %s\nflush\nidx *\nq 0 5000 1500000000000 %d %s\n", hex.EncodeToString([]byte(body)), time.Now().UnixMilli()+3600000, hex.EncodeToString([]byte("*")))
+	cmd := exec.Command(os.Args[0], "e2eworker")
+	cmd.Stdin = &in
+	var stdout bytes.Buffer
+	cmd.Stdout = &stdout
+	cmd.Env = append(os.Environ(), "GOMEMLIMIT=2GiB", "GOMAXPROCS=4")
+	done := make(chan error, 1)
+	if err := cmd.Start(); err != nil {
+		return Result{Out: "worker-start-failed"}
+	}
+	go func() { done <- cmd.Wait() }()
+	select {
+	case err := <-done:
+		if err != nil {
+			return Result{Out: "worker-died", Fails: []PropFail{{Sig: "bulk-e2e/worker-crash", Msg: fmt.Sprintf("engine worker exited abnormally: %v", err)}}, Nontrivial: true}
+		}
+	case <-time.After(120 * time.Second):
+		cmd.Process.Kill()
+		<-done
+		return Result{Out: "worker-timeout", Fails: []PropFail{{Sig: "bulk-e2e/worker-timeout", Msg: "engine worker did not finish within 120 s"}}, Nontrivial: true}
+	}
+	var bulkResp struct {
+		Items  []int `json:"items"`
+		Errors bool  `json:"errors"`
+	}
+	var qResp map[string]interface{}
+	for _, l := range strings.Split(strings.TrimSpace(stdout.String()), "\n") {
+		if strings.HasPrefix(l, `{"bulk"`) || strings.Contains(l, `"bulk":true`) {
+			json.Unmarshal([]byte(l), &bulkResp)
+		} else if strings.HasPrefix(l, "{") {
+			dec := json.NewDecoder(strings.NewReader(l))
+			dec.UseNumber()
+			dec.Decode(&qResp)
+		}
+	}
+	found := map[int]int{}
+	if recs, ok := qResp["recs"].([]interface{}); ok {
+		for _, r := range recs {
+			m, _ := r.(map[string]interface{})
+			if v, ok := m["_vid"].(json.Number); ok {
+				n, _ := strconv.Atoi(v.String())
+				found[n]++
+			}
+		}
+	}
+	var vids []int
+	for v := range found {
+		vids = append(vids, v)
+	}
+	sort.Ints(vids)
+	var sb strings.Builder
+	for _, st := range bulkResp.Items {
+		switch st {
+		case 201:
+			sb.WriteByte('c')
+		case 400:
+			sb.WriteByte('f')
+		case 413:
+			sb.WriteByte('t')
+		default:
+			sb.WriteString(fmt.Sprintf("?%d", st))
+		}
+	}
+	var vs []string
+	for _, v := range vids {
+		vs = append(vs, strconv.Itoa(v))
+	}
+	res := Result{Out: fmt.Sprintf("items=%s stored=%s", sb.String(), strings.Join(vs, ",")), Nontrivial: len(lines) >= 2}
+	for v, c := range found {
+		if c > 1 {
+			res.Fails = append(res.Fails, PropFail{Sig: "bulk-e2e/document-stored-twice", Msg: fmt.Sprintf("document _vid=%d is returned %d times", v, c)})
+		}
+	}
+	// independent pairing of acknowledged items with their documents: walk the body like the per-action specification
+	type abs struct {
+		kind string
+		ln   int
+		id   int
+	}
+	var al []abs
+	for i, tok := range f[1:] {
+		q := strings.Split(strings.SplitN(tok, "/", 2)[1], ":")
+		ln, _ := strconv.Atoi(q[1])
+		al = append(al, abs{q[0], ln, ids[i]})
+	}
+	for len(al) > 0 && al[len(al)-1].ln == 0 {
+		al = al[:len(al)-1]
+	}
+	item := 0
+	for i := 0; i < len(al); {
+		a := al[i]
+		docID := -1
+		switch a.kind {
+		case "i", "c":
+			if i+1 < len(al) {
+				docID = al[i+1].id
+			}
+			i += 2
+		case "u":
+			i += 2
+		default:
+			i++
+		}
+		if item < len(bulkResp.Items) {
+			created := bulkResp.Items[item] == 201
+			if docID > 0 {
+				if created && found[docID] == 0 {
+					res.Fails = append(res.Fails, PropFail{Sig: "bulk-e2e/acknowledged-but-not-searchable", Msg: fmt.Sprintf("item %d was answered 201 but its document _vid=%d is not found after flush", item, docID)})
+				}
+				if !created && found[docID] > 0 {
+					res.Fails = append(res.Fails, PropFail{Sig: "bulk-e2e/failed-item-was-stored", Msg: fmt.Sprintf("item %d was answered %d but its document _vid=%d is searchable", item, bulkResp.Items[item], docID)})
+				}
+			}
+		}
+		item++
 	}
 	return res
 }
